@@ -373,6 +373,11 @@ func c19RunScript(sc *c19Script) (cs *c19Case) {
 				op = c19Op{Kind: "vote", ID: int64(a.Req), A: r.id(who.Val.Addr), B: int64(a.Choice)}
 				d = fmt.Sprintf("vote q%d by %d choice %d", a.Req, a.Who, a.Choice)
 			case "release":
+				// the fee of evidence transactions is charged to the signer's validator record; a
+				// signer without one fails in the fee step whatever the handler says: not sent
+				if _, ok := r.rep.View()["v_"+string(who.Val.Addr)]; !ok {
+					continue
+				}
 				tx = txRelease(who, r.nextMemo())
 				op = c19Op{Kind: "release", A: r.id(who.Val.Addr)}
 				d = fmt.Sprintf("release %d", a.Who)
@@ -767,6 +772,7 @@ type c19Report struct {
 	Names     []string
 	Samples   []string
 	WallMs    int64
+	Per       int
 }
 
 func c19Main(args []string) int {
@@ -819,6 +825,7 @@ func c19Main(args []string) int {
 		}
 	}
 	rep.Cases = len(cases)
+	rep.Per = *per
 	for i := 0; i < len(cases); i += *per {
 		j := i + *per
 		if j > len(cases) {
